@@ -61,7 +61,7 @@ def correct_extension(file_name: str) -> bool:
     ext = ["ddl", "sql", "hql", "", "bql"]
     split_name = file_name.split(".")
     if len(split_name) >= 2:
-        ext_file = split_name[1]
+        ext_file = split_name[-1]
         if ext_file in ext:
             return True
     return False
